@@ -1,46 +1,170 @@
 import SnootyVerif.Model.Enumerator
 namespace SnootyVerif.Enumerator
 
-/-! ## roman table -/
+/-! ## roman.py: the greedy loops in closed form -/
 
-theorem indexOf_of_nodup : ∀ (table : List (List Char)) (i : Nat) (s : List Char),
-    table.Nodup → table[i]? = some s → indexOf table s = some i
-  | [], i, s, _, h => by simp at h
-  | x :: rest, 0, s, _, h => by
-    simp only [List.getElem?_cons_zero, Option.some.injEq] at h
-    simp [indexOf, h]
-  | x :: rest, i + 1, s, hn, h => by
-    simp only [List.getElem?_cons_succ] at h
-    have hn' := List.nodup_cons.mp hn
-    have hmem : s ∈ rest := List.mem_of_getElem? h
-    have hne : x ≠ s := fun hxs => hn'.1 (hxs ▸ hmem)
-    simp [indexOf, hne, indexOf_of_nodup rest i s hn'.2 h]
+/-- `num` written `q` times -/
+def rep : Nat → List Char → List Char
+  | 0, _ => []
+  | q + 1, num => num ++ rep q num
 
-/-- on a duplicate-free table, `from_roman(to_roman(n)) == n` for every `n` the table covers -/
-theorem roundtrip_of_nodup (table : List (List Char)) (hn : table.Nodup) (n : Nat) (h1 : 1 ≤ n) (h2 : n ≤ table.length) :
-    (toRoman table n).bind (fromRoman table) = .ok n := by
-  unfold toRoman
-  have hlt : n - 1 < table.length := by omega
-  rw [if_neg (by omega)]
-  have hget : table[n - 1]? = some table[n - 1] := List.getElem?_eq_getElem hlt
-  rw [hget]
-  simp only [Except.bind, fromRoman]
-  rw [indexOf_of_nodup table (n - 1) _ hn hget]
-  simp
-  omega
+theorem length_rep (q : Nat) (num : List Char) : (rep q num).length = q * num.length := by
+  induction q with
+  | zero => simp [rep]
+  | succ q ih => simp [rep, ih, Nat.succ_mul]; omega
 
-theorem toRoman_total (table : List (List Char)) (n : Nat) :
-    (∃ s, toRoman table n = .ok s) ∨ toRoman table n = .error .ValueError := by
+/-- the `while n >= value` loop emits `numeral` `n / value` times and leaves `n % value` -/
+theorem emit_closed (num : List Char) (v : Nat) (hv : 0 < v) :
+    ∀ (fuel n : Nat), n / v ≤ fuel → emit num v fuel n = (rep (n / v) num, n % v) := by
+  intro fuel
+  induction fuel with
+  | zero =>
+    intro n h
+    have h0 : n / v = 0 := Nat.eq_zero_of_le_zero h
+    have hlt : n < v := by
+      rcases (Nat.div_eq_zero_iff).mp h0 with h' | h'
+      · omega
+      · exact h'
+    simp [emit, h0, rep, Nat.mod_eq_of_lt hlt]
+  | succ f ih =>
+    intro n h
+    unfold emit
+    by_cases hle : v ≤ n
+    · have hd : n / v = (n - v) / v + 1 := Nat.div_eq_sub_div hv hle
+      have hm : n % v = (n - v) % v := Nat.mod_eq_sub_mod hle
+      rw [if_pos hle, ih (n - v) (by omega), hd, hm]
+      simp [rep]
+    · have hlt : n < v := by omega
+      rw [if_neg hle, Nat.div_eq_of_lt hlt, Nat.mod_eq_of_lt hlt]
+      simp [rep]
+
+theorem toRomanAux_cons (num : List Char) (v : Nat) (hv : 0 < v) (rest : List (List Char × Nat)) (n : Nat) :
+    toRomanAux ((num, v) :: rest) n = rep (n / v) num ++ toRomanAux rest (n % v) := by
+  simp only [toRomanAux]
+  rw [emit_closed num v hv n n (Nat.div_le_self n v)]
+
+theorem isPrefixOf_append_self : ∀ (num x : List Char), num.isPrefixOf (num ++ x) = true
+  | [], x => by simp [List.isPrefixOf]
+  | c :: cs, x => by simp [List.isPrefixOf, isPrefixOf_append_self cs x]
+
+theorem eat_acc (num : List Char) (v : Nat) : ∀ (fuel : Nat) (t : List Char) (a b : Nat),
+    eat num v fuel t (a + b) = ((eat num v fuel t b).1, a + (eat num v fuel t b).2) := by
+  intro fuel
+  induction fuel with
+  | zero => intro t a b; simp [eat]
+  | succ f ih =>
+    intro t a b
+    unfold eat
+    split
+    · rw [Nat.add_assoc, ih]
+    · rfl
+
+theorem fromRomanAux_acc : ∀ (m : List (List Char × Nat)) (t : List Char) (a b : Nat),
+    fromRomanAux m t (a + b) = a + fromRomanAux m t b
+  | [], t, a, b => by simp [fromRomanAux]
+  | (num, v) :: rest, t, a, b => by
+    simp only [fromRomanAux]
+    rw [eat_acc]
+    exact fromRomanAux_acc rest _ a _
+
+/-- reading back `q` copies of a numeral followed by text that does not start with it -/
+theorem eat_rep (num : List Char) (v : Nat) (w : List Char) (hw : num.isPrefixOf w = false) :
+    ∀ (q fuel acc : Nat), q ≤ fuel → eat num v fuel (rep q num ++ w) acc = (w, acc + q * v) := by
+  intro q
+  induction q with
+  | zero =>
+    intro fuel acc _
+    cases fuel with
+    | zero => simp [eat, rep]
+    | succ f => simp [eat, rep, hw]
+  | succ q ih =>
+    intro fuel acc h
+    cases fuel with
+    | zero => omega
+    | succ f =>
+      unfold eat
+      have hp : num.isPrefixOf (rep (q + 1) num ++ w) = true := by
+        simp only [rep, List.append_assoc]
+        exact isPrefixOf_append_self _ _
+      rw [if_pos hp]
+      have hd : (rep (q + 1) num ++ w).drop num.length = rep q num ++ w := by
+        simp [rep, List.append_assoc]
+      rw [hd, ih f (acc + v) (by omega), Nat.succ_mul]
+      congr 1
+      omega
+
+/-- exhaustive check of the part of the map below the thousands: `k` numbers from `start` on read back as themselves and
+do not start with the numeral `top` -/
+def bruteOk (top : List Char) (m : List (List Char × Nat)) : Nat → Nat → Bool
+  | 0, _ => true
+  | k + 1, start =>
+    (fromRomanAux m (toRomanAux m start) 0 == start && !(top.isPrefixOf (toRomanAux m start))) && bruteOk top m k (start + 1)
+
+theorem bruteOk_spec (top : List Char) (m : List (List Char × Nat)) : ∀ (k start : Nat), bruteOk top m k start = true →
+    ∀ n, start ≤ n → n < start + k →
+      fromRomanAux m (toRomanAux m n) 0 = n ∧ top.isPrefixOf (toRomanAux m n) = false := by
+  intro k
+  induction k with
+  | zero => intro start _ n h1 h2; omega
+  | succ k ih =>
+    intro start h n h1 h2
+    simp only [bruteOk, Bool.and_eq_true, beq_iff_eq, Bool.not_eq_true'] at h
+    by_cases hn : n = start
+    · subst hn; exact h.1
+    · exact ih (start + 1) h.2 n (by omega) (by omega)
+
+/-- peeling the first numeral (value `v`, written `n / v` times) off the round trip -/
+theorem roundtrip_peel (top : List Char) (v : Nat) (hv : 0 < v) (m : List (List Char × Nat))
+    (hb : ∀ n', n' < v → fromRomanAux m (toRomanAux m n') 0 = n' ∧ top.isPrefixOf (toRomanAux m n') = false) (n : Nat) :
+    fromRomanAux ((top, v) :: m) (toRomanAux ((top, v) :: m) n) 0 = n := by
+  rw [toRomanAux_cons top v hv]
+  obtain ⟨h1, h2⟩ := hb (n % v) (Nat.mod_lt n hv)
+  have htop : 0 < top.length := by
+    cases top with
+    | nil => simp [List.isPrefixOf] at h2
+    | cons c cs => simp
+  have hlen : n / v ≤ (rep (n / v) top ++ toRomanAux m (n % v)).length := by
+    rw [List.length_append, length_rep]
+    exact Nat.le_trans (Nat.le_mul_of_pos_right _ htop) (Nat.le_add_right _ _)
+  simp only [fromRomanAux]
+  rw [eat_rep top v _ h2 (n / v) _ 0 hlen]
+  show fromRomanAux m (toRomanAux m (n % v)) (0 + n / v * v) = n
+  rw [Nat.zero_add, ← Nat.add_zero (n / v * v), fromRomanAux_acc, h1]
+  exact Nat.div_add_mod' n v
+
+theorem toRoman_total (R : Roman) (n : Nat) :
+    (∃ s, toRoman R n = .ok s) ∨ toRoman R n = .error .ValueError := by
   unfold toRoman
   split
+  · exact Or.inl ⟨_, rfl⟩
   · exact Or.inr rfl
-  · split
-    · exact Or.inl ⟨_, rfl⟩
-    · exact Or.inr rfl
 
-theorem fromRoman_total (table : List (List Char)) (s : List Char) :
-    (∃ n, fromRoman table s = .ok n) ∨ fromRoman table s = .error .ValueError := by
+theorem fromRoman_total (R : Roman) (s : List Char) :
+    (∃ n, fromRoman R s = .ok n) ∨ fromRoman R s = .error .ValueError := by
   unfold fromRoman
+  split
+  · exact Or.inl ⟨_, rfl⟩
+  · exact Or.inr rfl
+
+/-- `from_roman` only ever accepts what `to_roman` writes: an accepted numeral is the canonical spelling of its value -/
+theorem fromRoman_sound (R : Roman) (s : List Char) (n : Nat) (h : fromRoman R s = .ok n) : toRoman R n = .ok s := by
+  unfold fromRoman at h
+  split at h
+  · rename_i hc
+    cases h
+    simp [toRoman, hc.1, hc.2.1, hc.2.2]
+  · cases h
+
+/-- the round trip through both functions, from the round trip of the loops -/
+theorem roundtrip_of_aux (R : Roman) (n : Nat) (h1 : 0 < n) (h2 : n < R.max)
+    (h : fromRomanAux R.map (toRomanAux R.map n) 0 = n) : (toRoman R n).bind (fromRoman R) = .ok n := by
+  simp only [toRoman, h1, h2, and_self, if_true, Except.bind, fromRoman, h]
+
+/-! ### the former lookup table -/
+
+theorem fromRomanTable_total (table : List (List Char)) (s : List Char) :
+    (∃ n, fromRomanTable table s = .ok n) ∨ fromRomanTable table s = .error .ValueError := by
+  unfold fromRomanTable
   split
   · exact Or.inl ⟨_, rfl⟩
   · exact Or.inr rfl
@@ -71,7 +195,7 @@ theorem firstSeq_isSome : ∀ (seqs : List String) (text : List Char),
       · exact firstSeq_isSome rest text ⟨s, hr, hm⟩
 
 /-- a converter applied to a text its own pattern accepts can only fail with ValueError -/
-theorem convert_err (table : List (List Char)) (s : String) (text : List Char) (hm : seqMatches s text = some true)
+theorem convert_err (table : Roman) (s : String) (text : List Char) (hm : seqMatches s text = some true)
     (e : PyErr) (h : convert table s text = .error e) : e = .ValueError := by
   unfold convert at h
   unfold seqMatches at hm
